@@ -1,4 +1,5 @@
 import NexoVerif.Model.Queue
+import NexoVerif.Model.QueueC
 /-! Line protocol for the `queue` engine (M-QUEUE). -/
 namespace Driver.Queue
 open NexoVerif.Queue
@@ -6,15 +7,36 @@ open NexoVerif.Queue
 structure DSt where
   q : Q := Q.new 1
   s : Spec := Spec.new 1
+  c : NexoVerif.CQ.St := { cap := 1 }
 
 def raw (q : Q) : String :=
   s!"e={q.enq} d={q.deq} st=" ++ ",".intercalate (q.stamps.map toString)
+
+/-- one whole `push(v)` of producer 0 in M-QUEUE-C, its atomic steps run back to back -/
+def cpush (c : NexoVerif.CQ.St) (v : Nat) : NexoVerif.CQ.St × String :=
+  let run (c : NexoVerif.CQ.St) (l : NexoVerif.CQ.Label) := (NexoVerif.CQ.step l c).getD c
+  let c := run c (.pBegin 0 v)
+  let c := run c (.pLoadStamp 0)
+  let c := run c (.pDecide 0)
+  let c := run c (.pWrite 0)
+  let c := run c (.pPublish 0)
+  (c, match c.results.getLast? with
+      | some (_, _, .ok) => "ok" | some (_, _, .full) => "full" | some (_, _, .closed) => "closed" | none => "?")
+
+def cpop (c : NexoVerif.CQ.St) : NexoVerif.CQ.St × String :=
+  match c.cons with
+  | .borrowed _ => (c, "busy")
+  | .idle =>
+    let c' := (NexoVerif.CQ.step .cPop c).getD c
+    if c'.d ≠ c.d then (c', s!"some {c'.popped.getLast?.getD 0}")
+    else if c'.popClosed && !(c.popClosed) || (c.closed && c.e == c.d) then (c', "closed")
+    else (c', "empty")
 
 def step (d : DSt) (ws : List String) : DSt × String :=
   match ws with
   | ["case", "queue", c] =>
     match c.toNat? with
-    | some c => ({ q := Q.new c, s := Spec.new c }, "ok")
+    | some c => ({ q := Q.new c, s := Spec.new c, c := { cap := c } }, "ok")
     | none => (d, "bad-op")
   | ["push", v] =>
     match v.toNat? with
@@ -22,17 +44,19 @@ def step (d : DSt) (ws : List String) : DSt × String :=
       let (q', r) := d.q.push v
       let (s', rs) := d.s.push v
       let txt := match r with | .ok => "ok" | .full => "full" | .closed => "closed" | .spin => "SPIN"
-      ({ q := q', s := s' }, txt ++ (if r == rs then "" else " SPEC-MISMATCH") ++ " " ++ raw q')
+      let (c', rc) := cpush d.c v
+      ({ q := q', s := s', c := c' }, txt ++ (if r == rs then "" else " SPEC-MISMATCH") ++ (if rc == txt then "" else " CONC-MISMATCH") ++ " " ++ raw q')
     | none => (d, "bad-op")
   | ["pop"] =>
     let (q', r) := d.q.pop
     let (s', rs) := d.s.pop
     let txt := match r with | .some v => s!"some {v}" | .empty => "empty" | .closed => "closed" | .busy => "busy"
-    ({ q := q', s := s' }, txt ++ (if r == rs then "" else " SPEC-MISMATCH") ++ " " ++ raw q')
+    let (c', rc) := cpop d.c
+    ({ q := q', s := s', c := c' }, txt ++ (if r == rs then "" else " SPEC-MISMATCH") ++ (if rc == txt then "" else " CONC-MISMATCH") ++ " " ++ raw q')
   | ["release"] =>
     let q' := d.q.release
-    ({ q := q', s := d.s.release }, (if d.q.borrowed.isSome then "released " else "nothing ") ++ raw q')
-  | ["close"] => let q' := d.q.close; ({ q := q', s := d.s.close }, "- " ++ raw q')
+    ({ q := q', s := d.s.release, c := (NexoVerif.CQ.step .cRelease d.c).getD d.c }, (if d.q.borrowed.isSome then "released " else "nothing ") ++ raw q')
+  | ["close"] => let q' := d.q.close; ({ q := q', s := d.s.close, c := (NexoVerif.CQ.step .close d.c).getD d.c }, "- " ++ raw q')
   | ["closed?"] => (d, if d.q.isClosed then "yes" else "no")
   | ["len"] => (d, s!"len {d.q.len}")
   | ["stress", _, _, _] => (d, "ok")
